@@ -205,3 +205,164 @@ Proof.
   (* bool & bool etc. stay bool in Python, int 0/1 in C++ *)
   all: try (repeat match goal with b : bool |- _ => destruct b end; cbn; eexists; split; reflexivity).
 Qed.
+
+(* ------------------------------------------------------------------ *)
+(* per-operator theorems over the generated tables                      *)
+(* ------------------------------------------------------------------ *)
+Lemma op_guard_kop op a b : op_guard op a b = true -> exists k, kop op = Some k.
+Proof. destruct op; cbn; intro H; try discriminate; eauto. Qed.
+
+Lemma binop_table_sound op tok :
+  In (op, tok) OpTables.bin ->
+  forall a b wa wb v, vrel a wa -> vrel b wb -> op_guard op a b = true ->
+  py_bin op a b = Ok v -> vfits v = true -> exists w, csem_bin tok wa wb = COk w /\ vrel v w.
+Proof.
+  intros Hin a b wa wb v Ha Hb Hg Hp Hf. destruct (op_guard_kop _ _ _ Hg) as [k Hk].
+  unfold csem_bin. rewrite (bin_table _ _ _ Hin Hk). eapply bin_num_sound; eauto.
+Qed.
+
+Lemma qnormal_eq q : qnormal q = true -> Qred q = q.
+Proof.
+  unfold qnormal. destruct (Qred q) as [n d]. destruct q as [n' d']. cbn [Qnum Qden].
+  intro H. apply andb_true_iff in H as [H1 H2]. apply Z.eqb_eq in H1. apply Pos.eqb_eq in H2. congruence.
+Qed.
+Lemma Qred_idem q : Qred (Qred q) = Qred q.
+Proof. apply Qred_complete. apply Qred_correct. Qed.
+Lemma qnormal_red q : qnormal (Qred q) = true.
+Proof.
+  unfold qnormal. rewrite Qred_idem. rewrite Z.eqb_refl, Pos.eqb_refl. reflexivity.
+Qed.
+
+Lemma un_num_sound op k a wa v :
+  uop op = Some k -> vrel a wa -> is_numv a = true -> py_un op a = Ok v -> vfits v = true ->
+  exists w, csem_un_k k wa = COk w /\ vrel v w /\ ctype_un k (tag_of wa) = Some (tag_of w).
+Proof.
+  intros Hk Ha Hn Hp Hf.
+  destruct op; cbn in Hk; inversion Hk; subst k; clear Hk;
+  (destruct a; try discriminate Hn); (destruct wa; cbn in Ha; try contradiction); subst;
+  cbn [py_un as_num truthy] in Hp; inversion Hp; subst; clear Hp; cbn [vfits] in Hf;
+  cbn [csem_un_k as_int tag_of ctype_un is_intty is_numty truth cbind].
+  all: try (rewrite (fits_mkint _ Hf); eexists; split; [reflexivity|split; reflexivity]).
+  all: try (eexists; split; [reflexivity|split; reflexivity]).
+  all: match goal with b : bool |- _ => destruct b end; (eexists; split; [reflexivity|split; reflexivity]).
+Qed.
+
+Lemma unop_table_sound op tok :
+  In (op, tok) OpTables.un ->
+  forall a wa v, vrel a wa -> is_numv a = true -> py_un op a = Ok v -> vfits v = true ->
+  exists w, csem_un tok wa = COk w /\ vrel v w.
+Proof.
+  intros Hin a wa v Ha Hn Hp Hf. destruct (un_table _ _ Hin) as (k & Hk & Ht).
+  unfold csem_un. rewrite Ht. destruct (un_num_sound _ _ _ _ _ Hk Ha Hn Hp Hf) as (w & H1 & H2 & _). eauto.
+Qed.
+
+Lemma cmp_sound op a b wa wb c :
+  vrel a wa -> vrel b wb -> cmp_guard a b (tag_of wa) (tag_of wb) = true ->
+  py_cmp op a b = Ok c -> ccmp op wa wb = COk c.
+Proof.
+  intros Ha Hb Hg Hp.
+  destruct a; destruct b; try (cbn in Hg; discriminate Hg);
+  (destruct wa; cbn in Ha; try contradiction); (destruct wb; cbn in Hb; try contradiction); subst;
+  try (cbn in Hg; discriminate Hg);
+  destruct op; cbn in Hp; try discriminate Hp; inversion Hp; subst; reflexivity.
+Qed.
+
+Lemma cmpop_table_sound op tok :
+  In (op, tok) OpTables.cmp ->
+  forall a b wa wb c, vrel a wa -> vrel b wb -> cmp_guard a b (tag_of wa) (tag_of wb) = true ->
+  py_cmp op a b = Ok c -> exists op', cmptok tok = Some op' /\ ccmp op' wa wb = COk c.
+Proof.
+  intros Hin a b wa wb c Ha Hb Hg Hp. exists op. split; [apply cmp_table; exact Hin|].
+  eapply cmp_sound; eauto.
+Qed.
+
+(* ------------------------------------------------------------------ *)
+(* refutations: closed witnesses (empty environments)                   *)
+(* ------------------------------------------------------------------ *)
+Definition G0 : tcx := {| tc_types := []; tc_lens := [] |}.
+(* what the firmware computes for a closed expression with the scripted readings [ins] *)
+Definition c_of (e : pexpr) (ins : inputs) : option (cres (cval * inputs)) :=
+  match to_c G0 e with TOk c => Some (crun [] [] c ins) | _ => None end.
+Definition py_of (e : pexpr) : res pval := peval [] e.
+
+Definition w_a0 : pexpr := ECall n_analog_read [EStr [65;48]] [].
+Definition ins39 : inputs := [((true, 14), [3; 9; 1])].
+
+Lemma floordiv_refuted : exists a b : Z, b <> 0 /\
+  py_of (EBin FloorDiv (EInt a) (EInt b)) = Ok (VInt (-4)) /\
+  c_of (EBin FloorDiv (EInt a) (EInt b)) [] = Some (COk (CInt (-3), [])).
+Proof. exists (-7), 2. split; [lia|]. split; vm_compute; reflexivity. Qed.
+
+Lemma floordiv_float_refuted : exists q : Q,
+  py_of (EBin FloorDiv (EFloat q) (EInt 2)) = Ok (VFloat (-1 # 1)) /\
+  c_of (EBin FloorDiv (EFloat q) (EInt 2)) [] = Some (COk (CFloat (-7 # 8), [])).
+Proof. exists (-7 # 4). split; vm_compute; reflexivity. Qed.
+
+Lemma mod_refuted : exists a b : Z, b <> 0 /\
+  py_of (EBin Mod (EInt a) (EInt b)) = Ok (VInt 2) /\
+  c_of (EBin Mod (EInt a) (EInt b)) [] = Some (COk (CInt (-1), [])).
+Proof. exists (-7), 3. split; [lia|]. split; vm_compute; reflexivity. Qed.
+
+Lemma mod_float_refuted : exists q : Q,
+  py_of (EBin Mod (EFloat q) (EInt 2)) = Ok (VFloat (7 # 4)) /\
+  c_of (EBin Mod (EFloat q) (EInt 2)) [] = Some CStuck.
+Proof. exists (7 # 4). split; vm_compute; reflexivity. Qed.
+
+Lemma truediv_refuted : exists a b : Z, b <> 0 /\
+  py_of (EBin Div (EInt a) (EInt b)) = Ok (VFloat (7 # 2)) /\
+  c_of (EBin Div (EInt a) (EInt b)) [] = Some (COk (CInt 3, [])).
+Proof. exists 7, 2. split; [lia|]. split; vm_compute; reflexivity. Qed.
+
+Lemma pow_refuted : exists a b : Z,
+  py_of (EBin Pow (EInt a) (EInt b)) = Ok (VInt 49) /\
+  c_of (EBin Pow (EInt a) (EInt b)) [] = Some CStuck.
+Proof. exists 7, 2. split; vm_compute; reflexivity. Qed.
+
+Lemma shift_range_refuted : exists a b : Z,
+  py_of (EBin RShift (EInt a) (EInt b)) = Ok (VInt 0) /\
+  c_of (EBin RShift (EInt a) (EInt b)) [] = Some CUndef.
+Proof. exists 7, 33. split; vm_compute; reflexivity. Qed.
+
+(* min(analog_read("A0"), 5): the argument alone reads 3, the macro reads twice (3, then 9) and yields 9 *)
+Lemma minmax_double_eval_refuted : exists ins i1 i2,
+  c_of w_a0 ins = Some (COk (CInt 3, i1)) /\
+  c_of (ECall n_min [w_a0; EInt 5] []) ins = Some (COk (CInt 9, i2)) /\ i1 <> i2.
+Proof. exists ins39. eexists. eexists. split; [vm_compute; reflexivity|]. split; [vm_compute; reflexivity|]. discriminate. Qed.
+
+(* 0 < analog_read("A0") < 5: with the single reading 3 Python says True, the device reads 3 then 9 *)
+Lemma chain_double_eval_refuted : exists ins i1 i2,
+  c_of w_a0 ins = Some (COk (CInt 3, i1)) /\
+  py_of (ECompare (EInt 0) [PyAst.Lt; PyAst.Lt] [EInt 3; EInt 5]) = Ok (VBool true) /\
+  c_of (ECompare (EInt 0) [PyAst.Lt; PyAst.Lt] [w_a0; EInt 5]) ins = Some (COk (CBool false, i2)).
+Proof. exists ins39. eexists. eexists. split; [vm_compute; reflexivity|]. split; vm_compute; reflexivity. Qed.
+
+Lemma boolop_value_refuted : exists a b : Z,
+  py_of (EBoolOp And [EInt a; EInt b]) = Ok (VInt 2) /\
+  c_of (EBoolOp And [EInt a; EInt b]) [] = Some (COk (CBool true, [])).
+Proof. exists 7, 2. split; vm_compute; reflexivity. Qed.
+
+Lemma cond_mixed_refuted : exists e : pexpr,
+  py_of e = Ok (VInt 7) /\ c_of e [] = Some (COk (CFloat (7 # 1), [])).
+Proof. exists (EIfExp (EBool true) (EInt 7) (EFloat (5 # 2))). split; vm_compute; reflexivity. Qed.
+
+Lemma str_bool_refuted : exists e : pexpr,
+  py_of e = Ok (VStr t_True) /\ c_of e [] = Some (COk (CStr [49], [])).
+Proof. exists (ECall n_str [EBool true] []). split; vm_compute; reflexivity. Qed.
+
+Lemma strlit_concat_refuted : exists e : pexpr,
+  py_of e = Ok (VStr [97; 99]) /\ c_of e [] = Some CStuck.
+Proof. exists (EBin Add (EIfExp (EBool true) (EStr [97]) (EStr [98])) (EStr [99])). split; vm_compute; reflexivity. Qed.
+
+Lemma int_strlit_cond_refuted : exists e : pexpr,
+  py_of e = Ok (VInt 12) /\ c_of e [] = Some CStuck.
+Proof. exists (ECall n_int [EIfExp (EBool true) (EStr [49; 50]) (EStr [49; 51])] []). split; vm_compute; reflexivity. Qed.
+
+Lemma len_utf8_refuted : exists e : pexpr,
+  py_of e = Ok (VInt 2) /\ c_of e [] = Some (COk (CInt 3, [])).
+Proof. exists (ECall n_len [EBin Add (EStr [233]) (ECall n_str [EInt 2] [])] []). split; vm_compute; reflexivity. Qed.
+
+(* the text of a value on the serial line: bool and float differ from Python's str() *)
+Lemma serial_text_refuted :
+  serial_text (CBool true) <> t_True /\ py_str (VBool true) = Ok t_True /\
+  exists q, float_simple q = true /\ serial_text (CFloat q) <> float_text q.
+Proof. split; [vm_compute; discriminate|]. split; [reflexivity|]. exists (5 # 2). split; [vm_compute; reflexivity|vm_compute; discriminate]. Qed.
